@@ -1034,3 +1034,19 @@ def opt_partial_eq(it, args, n, f):
     a = it.force(deref(it, args[0]))
     b = it.force(deref(it, args[1]))
     return SymV("opt_eq(%r,%r)" % (a, b))
+
+
+@model("std::vec::Vec::<T, A>::truncate", doc="keeps the first n elements (constant n)")
+def vec_truncate(it, args, n, f):
+    v = vec_of(it, args[0])
+    k = it.val_force(args[1])
+    if isinstance(v, ArenaVecV) and isinstance(k, IntV):
+        it.emit("arena_clear", table=v.arena.name, keep=k.n)
+        keep = {key: c for key, c in v.arena.nodes.items() if key.isdigit() and int(key) < k.n}
+        v.arena.nodes = keep
+        v.arena.cleared = True
+        return UnitV()
+    if isinstance(v, VecV) and isinstance(k, IntV) and v.obj.base is None:
+        v.obj.items = v.obj.items[:k.n]
+        return UnitV()
+    raise Unrecognised("truncate of %r to %r" % (v, k))
